@@ -196,7 +196,25 @@ class ReturnViaLocal(ast.NodeTransformer):
         return node
 
 
+class FlipBranches(ast.NodeTransformer):
+    """`if c: A else: B` -> `if not c: B else: A` (not for elif chains), `A if c else B` -> `B if not c else A`."""
+
+    def visit_If(self, node):
+        self.generic_visit(node)
+        if node.orelse and not (len(node.orelse) == 1 and isinstance(node.orelse[0], ast.If)):
+            node.test = ast.UnaryOp(op=ast.Not(), operand=node.test)
+            node.body, node.orelse = node.orelse, node.body
+        return node
+
+    def visit_IfExp(self, node):
+        self.generic_visit(node)
+        return ast.IfExp(test=ast.UnaryOp(op=ast.Not(), operand=node.test), body=node.orelse, orelse=node.body)
+
+
 def main():
+    flip = "--flip-branches" in sys.argv
+    if flip:
+        sys.argv.remove("--flip-branches")
     via_local = "--return-via-local" in sys.argv
     if via_local:
         sys.argv.remove("--return-via-local")
@@ -222,6 +240,8 @@ def main():
             tree.body = new_body
             if via_local:
                 tree = ReturnViaLocal().visit(tree)
+            if flip:
+                tree = FlipBranches().visit(tree)
             ast.fix_missing_locations(tree)
             src = ast.unparse(tree) + "\n"
             compile(src, p, "exec")
